@@ -60,3 +60,57 @@ with odo_keys_alts (alts : jalts) : list id :=
 
 Definition erase_nav (v : vnav) : nav := mknav (erase (vn_loc v)) (erase_an (vn_an v)).
 Definition erase_rnav (x : res vnav) : res nav := match x with Ok v => Ok (erase_nav v) | Err e => Err e end.
+
+(* ---- the shape of the $ref's cobol_parser emits, as a boolean on the schema ----
+   jkeys s        every $anchor in s (what a walk registers)
+   alt_anchors    the anchors of the direct alternatives of a oneOf
+   redef_ok s     a $ref occurs only as a property of an object and names the anchor of a direct alternative of
+                  a oneOf that is an EARLIER property of the same object (the REDEFINES-x entry)
+   uniq_keys s    no $anchor occurs twice *)
+Definition okey (a : option key) : list key := match a with Some k => [k] | None => [] end.
+
+Fixpoint jkeys (s : js) : list key :=
+  okey (js_anchor s) ++
+  match s with
+  | JArr _ _ its | JOdo _ _ its => jkeys its
+  | JObj _ ps => jkeys_props ps
+  | JOne _ alts => jkeys_alts alts
+  | _ => []
+  end
+with jkeys_props (ps : props) : list key :=
+  match ps with PNil => [] | PCons _ s r => jkeys s ++ jkeys_props r end
+with jkeys_alts (alts : jalts) : list key :=
+  match alts with ANil => [] | ACons s r => jkeys s ++ jkeys_alts r end.
+
+Fixpoint alt_anchors (alts : jalts) : list key :=
+  match alts with ANil => [] | ACons s r => okey (js_anchor s) ++ alt_anchors r end.
+
+Definition memk (k : key) (l : list key) : bool := existsb (key_eqb k) l.
+
+Fixpoint redef_ok (s : js) : bool :=
+  match s with
+  | JAtom _ _ => true
+  | JArr _ _ its => redef_ok its
+  | JOdo _ _ its => redef_ok its
+  | JObj _ ps => redef_props [] ps
+  | JOne _ alts => redef_alts alts
+  | JRef _ => false
+  end
+with redef_props (seen : list key) (ps : props) : bool :=
+  match ps with
+  | PNil => true
+  | PCons _ p r =>
+      match p with
+      | JRef t => memk t seen && redef_props seen r
+      | JOne _ alts => redef_alts alts && redef_props (alt_anchors alts ++ seen) r
+      | _ => redef_ok p && redef_props seen r
+      end
+  end
+with redef_alts (alts : jalts) : bool :=
+  match alts with ANil => true | ACons s r => redef_ok s && redef_alts r end.
+
+Fixpoint nodupk (l : list key) : bool :=
+  match l with [] => true | k :: t => negb (memk k t) && nodupk t end.
+
+Definition uniq_keys (s : js) : bool := nodupk (jkeys s).
+Definition cobol_like (s : js) : bool := redef_ok s && uniq_keys s.
